@@ -235,6 +235,16 @@ def run(tier, seed):
         for Up in (Rr.T.dot(Rr), Rr.T.dot(Rr).dot(Rzz), Rzz.dot(Rr.T.dot(Rr))):
             D.run("u_to_euler", [Up], note="(product of rotations, U33 - 1 = %.1e)" % (Up[2, 2] - 1))
             D.run("u_to_rod", [Up], note="(product of rotations)", tol=1e-9)
+    # cells of special form (rhombohedral, hexagonal, cubic, tetragonal, orthorhombic, monoclinic): fast paths must exist in both
+    # modules or in neither
+    for cell_ in ([5.0, 5.0, 5.0, 60.0, 60.0, 60.0], [5.0, 5.0, 5.0, 100.0, 100.0, 100.0], [3.0, 3.0, 5.0, 90.0, 90.0, 120.0], [4.0, 4.0, 4.0, 90.0, 90.0, 90.0],
+                  [4.0, 4.0, 6.0, 90.0, 90.0, 90.0], [4.0, 5.0, 6.0, 90.0, 90.0, 90.0], [4.0, 5.0, 6.0, 90.0, 100.0, 90.0], [4.0, 5.0, 6.0, 70.0, 90.0, 90.0],
+                  [4.0, 5.0, 6.0, 90.0, 90.0, 110.0], [5, 5, 5, 60, 60, 60], [4, 5, 6, 90, 90, 90]):
+        for fn_ in ("cell_invert", "cell_volume", "form_a_mat", "form_a_mat_inv", "form_b_mat"):
+            D.run(fn_, [cell_], note="(special-form cell %s)" % (cell_,))
+        D.run("sintl", [cell_, [1, -2, 3]], note="(special-form cell %s)" % (cell_,))
+        D.run("b_to_cell", [np.asarray(tools.form_b_mat(cell_), dtype=float)], note="(special-form cell %s)" % (cell_,))
+        D.run("a_to_cell", [np.asarray(tools.form_a_mat(cell_), dtype=float)], note="(special-form cell %s)" % (cell_,))
     # ---- D: reflection generation
     tabs, dic = export.write_tables_module(wd)
     pick = [(t["no"], t["setting"]) for t in tabs if t["no"] in (1, 2, 5, 14, 19, 62, 88, 123, 143, 146, 148, 150, 155, 158, 159, 160, 163, 165, 167, 176, 185, 186, 188, 194, 198, 205, 220, 225, 227, 230)]
